@@ -153,6 +153,8 @@ PROPS = {
                 title="v2 computes the same tree as v1"),
     "C20": dict(kind="v1hist", quick_n=200, thorough_n=2000, gen="v2p", mode="v2", profile=None,
                 title="v2 persistence"),
+    "C16": dict(kind="v1hist", quick_n=150, thorough_n=1500, gen="legacy", mode="legacy", profile=None,
+                title="legacy-format databases stay usable"),
     "C14": dict(kind="v1hist", quick_n=1500, thorough_n=4000,
                 profile=Profile(meta_per_version=(2, 5), p_load_old=0.25, p_prune=0.3, p_reopen=0.25,
                                 check_all_versions=0.2, p_noop_version=0.35),
@@ -215,6 +217,12 @@ def sig_v2_recommit_sharded(lines, d):
     return reopened_older and d["line"].split()[0] in ("save", "open") and (d["impl"] or "").startswith("err")
 
 
+def sig_legacy_converted_root_clash(lines, d):
+    # K24: the model flagged the trigger (two different legacy roots with the same node version re-stored
+    # under the same new-format key) earlier in this history
+    return "K24" in (d.get("hazards") or [])
+
+
 def sig_empty_value_proof(lines, d):
     # K6: ics23 rejects an empty value: the proof (or a neighbour leaf of a non-membership proof) carries value `x`
     return d["kind"] == "oracle" and (" x " in (d["impl"] or "") and "proof" in d["line"])
@@ -222,6 +230,7 @@ def sig_empty_value_proof(lines, d):
 
 SIGNATURES = {
     "empty-value-proof": sig_empty_value_proof,
+    "legacy-converted-root-clash": sig_legacy_converted_root_clash,
     "v2-recommit-sharded": sig_v2_recommit_sharded,
     "multibatch-commit-cut": sig_multibatch_commit_cut,
     "multibatch-delete-cut": sig_multibatch_delete_cut,
@@ -248,6 +257,13 @@ def corpus(prop):
         for f in sorted(os.listdir(d)):
             if f.endswith(".hist"):
                 lines = [l.rstrip("\n") for l in open(os.path.join(d, f)) if l.strip()]
+                # history ids name scratch databases: keep corpus ids apart from generated ones
+                tag = "c" + "".join(ch for ch in f[:-5] if ch.isalnum())[:24]
+                for i, l in enumerate(lines):
+                    a = l.split()
+                    if a[0] in ("new", "knew"):
+                        a[1] = tag
+                        lines[i] = " ".join(a)
                 out.append(("corpus/" + f, lines))
     return out
 
@@ -284,7 +300,7 @@ def run_check(prop, tier, seed, n_override=None):
     broken = None
     try:
         try:
-            proof = C.prepare(prop, v2=(cfg.get("mode") == "v2"))
+            proof = C.prepare(prop, v2=(cfg.get("mode") == "v2"), legacy=(cfg.get("mode") == "legacy"))
         except C.BuildBroken as e:
             broken = {"what": e.what, "detail": e.detail}
             C.log("BUILD BROKEN:", e.what, "\n", e.detail)
@@ -295,7 +311,9 @@ def run_check(prop, tier, seed, n_override=None):
                 return 1
         proof_broken = broken is not None or proof["obligations"] != proof["discharged"] or bool(proof["grep_gate"])
         n = n_override or (cfg["thorough_n"] if (tier == "thorough" or proof_broken) else cfg["quick_n"])
-        if cfg.get("gen") in ("v2", "v2p"):
+        if cfg.get("gen") == "legacy":
+            hists = corpus(prop) + v1gen.gen_legacy(seed, n)
+        elif cfg.get("gen") in ("v2", "v2p"):
             hists = corpus(prop) + v1gen.gen_v2(seed, n, persist=(cfg["gen"] == "v2p"))
         elif cfg.get("kind") == "multi":
             hists = list(corpus(prop))
